@@ -22,7 +22,9 @@ RULE = ("every bpf() map syscall the library issues while running the C09 "
         "Key/Value layouts, plain and LRU) and a per-CPU workload (maps "
         "created and read under the full and under narrowed CPU affinity "
         "masks; several instances of one program class with different "
-        "sub-program sets read in random order) is "
+        "sub-program sets read in random order; Dict calls with objects of "
+        "a base structure class, a HashMap with more than 255 variables - "
+        "both may be refused but never passed on with short buffers) is "
         "intercepted at ebpfcat.bpf.bpf; the size of the Python object behind "
         "each key/value/next-key pointer (recorded at addrof/addressof/"
         "c_char.from_buffer) is compared with the map geometry recorded at "
@@ -156,6 +158,82 @@ def percpu_instances_workload(res, rng):
             ld.close()
 
 
+def misuse_workload(res, rng):
+    """calls the API may refuse but must never pass on with short buffers:
+    Dict operations with objects of a base structure class instead of the
+    declared Key / Value, and a HashMap with more than 255 variables"""
+    from ebpfcat.ebpf import Structure
+    from ebpfcat.hashmap import HashMap
+    from ebpfcat.ebpf import Member
+    from ebpfcat.hashmap import Dict
+    KeyBase = type("KeyBase", (Structure,), {"a": Member("I")})
+    Key = type("Key", (KeyBase,), {"b": Member(rng.choice("IHB"))})
+    ValueBase = type("ValueBase", (Structure,), {"x": Member("Q")})
+    Value = type("Value", (ValueBase,), {"y": Member("Q"),
+                                          "z": Member(rng.choice("IHB"))})
+    with kern.session() as sess:
+        ns = {"license": "GPL",
+              "d": Dict(key=Key, value=Value, size=8,
+                        lru=rng.random() < 0.3)}
+
+        def dprogram(self):
+            self.r0 = 2
+            self.exit()
+        ns["program"] = dprogram
+        e = type("VfMisuse", (XDP,), ns)()
+        ld = prog.Loaded(e, sess)
+        with sysmon.Monitor(sess) as mon:
+            try:
+                ld.load()
+                k = Key()
+                k.a, k.b = 7, 9
+                e.d[k] = Value()
+                for what in ("get", "set-key", "set-value", "pop", "del"):
+                    for wrong in (Structure, KeyBase, ValueBase):
+                        try:
+                            if what == "get":
+                                e.d[wrong()]
+                            elif what == "set-key":
+                                e.d[wrong()] = Value()
+                            elif what == "set-value":
+                                e.d[k] = wrong()
+                            elif what == "pop":
+                                e.d.pop(wrong(), None)
+                            else:
+                                del e.d[wrong()]
+                            res.count("misuse_accepted[" + what + "]")
+                        except Exception:
+                            res.count("misuse_refused[" + what + "]")
+            except OSError:
+                res.count("misuse_dict_load_failed")
+        absorb(mon, res, "misuse-dict")
+        ld.close()
+    with kern.session() as sess:
+        h = HashMap()
+        ns = {"license": "GPL", "h": h}
+        nvars = rng.choice([256, 257, 300])
+        for i in range(nvars):
+            ns[f"v{i}"] = h.globalVar(rng.choice("BHIQ"), i & 0xff)
+
+        def program(self):
+            self.r0 = 2
+            self.exit()
+        ns["program"] = program
+        with sysmon.Monitor(sess) as mon:
+            try:
+                e = type("VfBigHash", (XDP,), ns)()
+                ld = prog.Loaded(e, sess)
+                ld.load()
+                for i in (1, 2, 255, nvars - 1):
+                    setattr(e, f"v{i}", 5)
+                    getattr(e, f"v{i}")
+                res.count("big_hashmap_accepted")
+                ld.close()
+            except Exception as ex:
+                res.count("big_hashmap_refused[" + type(ex).__name__ + "]")
+        absorb(mon, res, "misuse-big-hashmap")
+
+
 def run_shard(params):
     res = Result()
     if params.get("valgrind"):
@@ -172,6 +250,7 @@ def run_shard(params):
     percpu_workload(res, rng)
     for _ in range(3):
         percpu_instances_workload(res, rng)
+    misuse_workload(res, rng)
     res.count("workload_model_mismatches (C09's business)",
               len(scratch.violations))
     return res
